@@ -73,6 +73,11 @@ def plan(tier, ctx):
                     dict(harness="harness/C18/h_sethuff.c", units=IGZIP_UNITS, defines=FAST, hdefines=[], unwind=17,
                          flags=["--arrays-uf-always"], witness=True, timeout=400), core=True, family="set_hufftables",
                     weight=10))
+    # ---------------------------------------------------------------- engine B: assembly heap primitive (lead)
+    from vlib.core import Query as _Q
+    for n in ([2, 3, 4, 5, 6, 7] if tier == "quick" else [2, 3, 4, 5, 6, 7, 8, 9]):
+        qs.append(_Q("x86/build_heap/n%d" % n, "harness.C18.heap_x86:heap_query", dict(sizes=[n]), core=(n == 4), family="x86/build_heap",
+                     weight=3 ** n / 10.0, timeout=1800))
     return Plan(
         "C18", "model_checking", qs,
         functions_encoded=["rl_encode", "write_rl", "create_packed_len_table", "create_packed_dist_table", "create_code_tables",
